@@ -28,7 +28,8 @@ import sym  # noqa: E402
 KERNELS = {
     "C01": ["k_index_of", "k_str_slice", "k_str_insert", "k_random", "k_unique_id", "k_str_index_length"],
     "C06": ["k_unique_id", "k_random"],
-    "C11": ["k_plus_minus_units", "k_numeric_cmp"],
+    "C11": ["k_plus_minus_units", "k_numeric_cmp", "k_unitset_simplify"],
+    "C13": ["k_map_merge"],
     "C12": ["k_numeric_cmp", "k_value_eq_symmetric"],
     "C14": ["k_is_true", "k_and_or", "k_binop_short_circuit", "k_not"],
     "C17": ["k_for_bounds"],
@@ -106,11 +107,14 @@ def ref_insert(s, x, i):
     return s[:before] + x + s[before:]
 
 
+SAMPLE = "\u00e4b\u00e7d\U0001F46D" + "f\u00f1h\u00efjklmnopqrstuvwxyzABCDEFGHIJKLMNOPQ"  # code points, not bytes
+
+
 def lift_str_slice(model):
     a, b, ln = _val(model, "arg.start_at"), _val(model, "arg.end_at"), _val(model, "len", False)
     if a is None or b is None or ln is None or ln > 40 or abs(a) > 10**6 or abs(b) > 10**6:
         return None
-    s = "abcdefghijklmnopqrstuvwxyzABCDEFGHIJKLMN"[:ln]
+    s = SAMPLE[:ln]
     want = '"%s"' % ref_slice(s, a, b)
     vals, outs = _css_value('str-slice("%s", %d, %d)' % (s, a, b))
     return {"scss": 'str-slice("%s", %d, %d)' % (s, a, b), "want": want, "got": vals, "reproduced": any(v != want for v in vals)}
@@ -120,7 +124,7 @@ def lift_str_insert(model):
     i, ln = _val(model, "arg.index"), _val(model, "len", False)
     if i is None or ln is None or ln > 40 or abs(i) > 10**6:
         return None
-    s = "abcdefghijklmnopqrstuvwxyzABCDEFGHIJKLMN"[:ln]
+    s = SAMPLE[:ln]
     want = '"%s"' % ref_insert(s, "XY", i)
     vals, outs = _css_value('str-insert("%s", "XY", %d)' % (s, i))
     return {"scss": 'str-insert("%s", "XY", %d)' % (s, i), "want": want, "got": vals, "reproduced": any(v != want for v in vals)}
@@ -242,14 +246,22 @@ STRUCTURAL_PROBES = {
                              ("a == \"a\"", "true"), ("(1 2) == (1 2)", "true"), ("1 == 1px", "false"), ("1px == 1", "false"), ("null == false", "false")],
     "k_complement_grayscale": [("hue(complement(hsl(10, 50%, 50%)))", "190deg"), ("saturation(grayscale(hsl(10, 50%, 40%)))", "0%"),
                                ("lightness(grayscale(hsl(10, 50%, 40%)))", "40%"), ("hue(adjust-hue(hsl(10, 50%, 50%), 30deg))", "40deg")],
-    "k_str_index_length": [("str-index(\"abcd\", \"c\")", "3"), ("inspect(str-index(\"abcd\", \"x\"))", "null"), ("str-length(\"abcd\")", "4"),
+    "k_str_insert": [("str-insert(\"\u00e4bc\", \"X\", -2)", "\"\u00e4bXc\""), ("str-insert(\"\u00e9\u00e9\", \"X\", -3)", "\"X\u00e9\u00e9\""),
+                     ("str-insert(\"abc\", \"X\", 2)", "\"aXbc\""), ("str-insert(abc, X, -1)", "abcX")],
+    "k_str_slice": [("str-slice(\"\u00e4bc\", 2)", "\"bc\""), ("str-slice(\"\u00e4bc\", -2)", "\"bc\""), ("str-slice(abc, 2, 2)", "b")],
+    "k_str_index_length": [("str-index(\"\u00e4bcd\", \"c\")", "3"), ("str-length(\"\u00e4\U0001F46D\")", "2"),("str-index(\"abcd\", \"c\")", "3"), ("inspect(str-index(\"abcd\", \"x\"))", "null"), ("str-length(\"abcd\")", "4"),
                            ("to-upper-case(\"ab\")", "\"AB\""), ("to-upper-case(ab)", "AB")],
-    "k_append_join": [("append(a b, c, comma)", "a, b, c"), ("append((a, b), c)", "a, b, c"), ("join(a b, (c, d))", "a b c d"), ("join((a, b), c d)", "a, b, c, d"),
+    "k_append_join": [("join(c, [d e])", "c d e"), ("join((), [d e])", "d e"), ("join([c], d e)", "[c d e]"), ("append(a b, c, comma)", "a, b, c"), ("append((a, b), c)", "a, b, c"), ("join(a b, (c, d))", "a b c d"), ("join((a, b), c d)", "a, b, c, d"),
                       ("join(a, (b, c))", "a, b, c"), ("append([a], b)", "[a b]")],
     "k_list_separator": [("list-separator((a, b))", "comma"), ("list-separator(a b)", "space"), ("list-separator(())", "space"), ("is-bracketed([a])", "true"),
                          ("is-bracketed(a b)", "false")],
     "k_for_bounds": [("a { @for $i from 1in to 192px { b: $i } }", "a { b: 1in; }"), ("a { @for $i from 1 through 2px { b: $i } }", "a { b: 1; b: 2; }"),
                      ("a { @for $i from 3px through 1 { b: $i } }", "a { b: 3px; b: 2px; b: 1px; }"), ("a { @for $i from 1cm to 30mm { b: $i } }", "a { b: 1cm; b: 2cm; }")],
+    "k_unitset_simplify": [("math.div(1, 1cm) * 1mm", "0.1"), ("math.div(1s, 1cm) * 1mm", "0.1s"), ("math.div(1, 1s) * 500ms", "0.5"),
+                           ("math.div(144, 1in) * 36pt", "72"), ("math.div(1mm, 1cm)", "0.1"), ("1mm * math.div(1, 1cm)", "0.1"),
+                           ("math.div(1cm * 1cm, 1mm)", "10cm"), ("math.div(1in, 1px) * 1px", "96px")],
+    "k_map_merge": [("inspect(map-merge((c: old), (c: new, e: f)))", "(c: new, e: f)"), ("inspect(map-merge((a: 1, b: 2), (b: 3)))", "(a: 1, b: 3)"),
+                    ("inspect(map-merge((y: 0), (x: 1, y: 2, z: 3)))", "(y: 2, x: 1, z: 3)"), ("inspect(map-merge((), (a: 1)))", "(a: 1)")],
     "k_and_or": [("inspect(() or 1)", "()"), ("null or 1", "1"), ("0 and 1", "1"), ("false and 1", "false"), ("\"\" or 2", "\"\""), ("inspect((null,) or 3)", "(null,)")],
     "k_binop_short_circuit": [("false and $undefined-variable", "false"), ("true or $undefined-variable", "true")],
     "k_is_true": [("if((), 1, 2)", "1"), ("if(unquote(\"\"), 1, 2)", "1"), ("if(0, 1, 2)", "1"), ("if(null, 1, 2)", "2")],
@@ -314,7 +326,7 @@ def validate_references(pid, log):
     if pid in ("C26", "C01"):
         for _ in range(10):
             ln = rnd.randint(0, 7)
-            s = "abcdefg"[:ln]
+            s = SAMPLE[:ln]
             a, b = rnd.randint(-ln - 2, ln + 2), rnd.randint(-ln - 2, ln + 2)
             vals, _ = _css_value('str-slice("%s", %d, %d)' % (s, a, b))
             n += 1
